@@ -36,7 +36,11 @@ func genValidHistory(t *rapid.T, o gwOpts, maxPayload int) []PktSpec {
 	if o.TokenAuth {
 		cookie = "valid:A"
 	}
-	h = append(h, PktSpec{K: "tc", Cookie: cookie}, PktSpec{K: "ta"}, PktSpec{K: "cc", Host: "A"})
+	ta := PktSpec{K: "ta"}
+	if rapid.IntRange(0, 3).Draw(t, "oddClientName") == 0 {
+		ta.Mal = "odd" // judged by the metamorphic relation only: whatever the gateway makes of it, it makes the same of it in every segmentation
+	}
+	h = append(h, PktSpec{K: "tc", Cookie: cookie}, ta, PktSpec{K: "cc", Host: "A"})
 	n := rapid.IntRange(0, 6).Draw(t, "ndata")
 	bulk := maxPayload >= 16384 && rapid.IntRange(0, 4).Draw(t, "bulk") == 0 // many large data packets: more than one maximal packet's worth of bytes in flight
 	if bulk {
@@ -153,8 +157,8 @@ func genC08(t *rapid.T) c08Case {
 		}
 		c.Bad = pk
 		c.BadLen = uint32(rapid.IntRange(0, 7).Draw(t, "badlen"))
-		for i := range c.Hist { // this mode is judged by the reference model, which has no opinion on over-long inner lengths
-			if c.Hist[i].K == "data" {
+		for i := range c.Hist { // this mode is judged by the reference model, which has no opinion on over-long inner lengths or odd name lengths
+			if c.Hist[i].K == "data" || (c.Hist[i].K == "ta" && c.Hist[i].Mal == "odd") {
 				c.Hist[i].Mal, c.Hist[i].MalN = "", 0
 			}
 		}
